@@ -389,11 +389,17 @@ def run_sharded(exe_cmd, lines, shards=JOBS, timeout=3600, env=None):
 # ------------------------------------------------------------ findings / evidence
 
 def load_known():
-    p = os.path.join(VERIF, "known_findings.json")
-    try:
-        return json.load(open(p))
-    except OSError:
-        return {"findings": []}
+    """known_findings.json plus the per-group fragments known_findings.d/*.json
+    (committed files, never written at run time)."""
+    import glob
+    out = {"findings": []}
+    paths = [os.path.join(VERIF, "known_findings.json")] + sorted(glob.glob(os.path.join(VERIF, "known_findings.d", "*.json")))
+    for p in paths:
+        try:
+            out["findings"].extend(json.load(open(p)).get("findings", []))
+        except (OSError, ValueError):
+            pass
+    return out
 
 
 def match_known(prop_id, signature):
